@@ -1,6 +1,6 @@
 import RlboxModel.Casts
 import RlboxModel.Props.C04
-import RlboxModel.Props.C06
+import RlboxModel.Props.C06Core
 /-!
 # C20 — Opaque wrappers and sandbox casts preserve bits, designation and taint
 Property theorems only.
